@@ -98,7 +98,7 @@ class H:
                  cbmc=(), fp=None, caps=None, objbits=12, leak=False, alloc=False, models=(),
                  timeout=None, note='', inputs='', bounds='', incdirs=(), src_defines=(),
                  unconfirmed_ok=(), functions=(), maxdeepen=None, extra_srcs=(), unwind_default=1,
-                 solver=None, nowitness=False, exclude=None, roots=None, partial_deepen=False, snapshot=False, model_defines=(), native_extra=()):
+                 solver=None, nowitness=False, exclude=None, roots=None, partial_deepen=False, snapshot=False, model_defines=(), native_extra=(), native_ldflags=()):
         self.name = name
         self.src = src                      # path relative to /verif/harness
         self.sources = list(sources)        # repo-relative C files
@@ -129,6 +129,7 @@ class H:
         self.snapshot = snapshot
         self.model_defines = list(model_defines)
         self.native_extra = list(native_extra)   # repo-relative sources linked only into the native replay
+        self.native_ldflags = list(native_ldflags)
         self.roots = roots                  # root descriptor objects for table reachability
         self.exclude = exclude              # regex: functions never offered as function-pointer targets
 
@@ -629,7 +630,7 @@ class Replayer:
             hflags = flags + ['-I', rdir] + [x for x in build['hflags'] if not x.startswith('-D__builtin_nanf')] + list(variant_defs)
             exe = os.path.join(self.stage.dir, 'replay.%s.%s' % (h.name, tag))
             hsrcs = [os.path.join(VERIF, 'harness', h.src)] + [os.path.join(VERIF, 'harness', e) for e in h.extra_srcs]
-            rc, so, se, _ = run(['gcc'] + hflags + hsrcs + objs + ['-lm', '-o', exe], limit=False, timeout=600)
+            rc, so, se, _ = run(['gcc'] + hflags + hsrcs + objs + list(h.native_ldflags) + ['-lm', '-o', exe], limit=False, timeout=600)
             if rc != 0:
                 return 'build-failed', (so + se)[-3000:], rdir
         except EngineError as e:
